@@ -27,8 +27,11 @@ type Gated struct {
 	everIn     map[imap.MailboxID]map[imap.MessageID]bool // message was in the mailbox at some time
 	nowIn      map[imap.MailboxID]map[imap.MessageID]bool
 	// OnCmd is called after every client command with the mirror as it stood before.
-	OnCmd    func(si int, kind string, before []wire.Entry, r *wire.Result)
-	batchOut map[string]bool // removed from a mailbox by the calls of the command being folded in
+	OnCmd func(si int, kind string, before []wire.Entry, r *wire.Result)
+	// PipeAfterDone (C05): in some cases the client sends the next FETCH in the same write as
+	// DONE, as a client does that does not wait for the completion of IDLE.
+	PipeAfterDone bool
+	batchOut      map[string]bool // removed from a mailbox by the calls of the command being folded in
 }
 
 func NewGated(e *Env, nsess, nbox int) *Gated {
@@ -199,6 +202,10 @@ func (g *Gated) ExecG(a core.Action) bool {
 	case "done":
 		if !s.InIdle {
 			return false
+		}
+		if g.PipeAfterDone && a.Arg(0)%2 == 1 && s.M.Count() > 0 && !s.C.Dead {
+			g.endIdlePipelined(si)
+			return true
 		}
 		g.endIdle(si)
 		return true
@@ -514,6 +521,52 @@ func (g *Gated) endIdle(si int) {
 	g.E.Tr.Event("done", si, res.Status)
 	if res.Status == "" && !s.C.Conn.ServerClosed() {
 		g.E.Fail("protocol", "DONE was not answered with the IDLE completion")
+		return
+	}
+	g.after(si, "done", before, res)
+}
+
+// endIdlePipelined leaves IDLE with "DONE" and a FETCH in one write.  Whatever the server
+// still has to announce from the time of the IDLE must not reach the client as an EXPUNGE
+// between the completion of IDLE and the completion of the FETCH: the client sent the FETCH
+// with the sequence numbers it knew.
+func (g *Gated) endIdlePipelined(si int) {
+	s := g.Sess[si]
+	e := g.E
+	before := copyEntries(s.M.Msgs)
+	ftag := s.C.NextTag()
+	s.W.Sim.SetLabel(s.Label)
+	s.C.Conn.ClientSend([]byte("DONE\r\n" + ftag + " FETCH 1:* (FLAGS)\r\n"))
+	e.W.Quiesce()
+	lines, err := s.Poll()
+	s.InIdle = false
+	if err != nil {
+		e.Fail("protocol", "DONE + FETCH: %v", err)
+		return
+	}
+	e.St.Probes["done_with_pipelined_fetch"]++
+	res := &wire.Result{Tag: s.IdleTag}
+	phase := 0 // 0 = IDLE still open, 1 = FETCH in progress, 2 = FETCH completed
+	fstatus := ""
+	for _, l := range lines {
+		switch {
+		case l.Tag == s.IdleTag:
+			res.Status, res.Code, res.Text = l.Status, l.Code, l.Text
+			phase = 1
+		case l.Tag == ftag:
+			fstatus = l.Status
+			phase = 2
+		default:
+			if n, kw, ok := l.Num(); ok && kw == "EXPUNGE" && phase == 1 {
+				e.FailSig("expunge-in-forbidding", "fetch after done", "%s sent DONE and a FETCH in one write and received \"* %d EXPUNGE\" after the completion of IDLE and before the completion of the FETCH: the removal had been held in the IDLE buffer and was sent while the server was answering the FETCH", s.Label, n)
+				return
+			}
+			res.Lines = append(res.Lines, l)
+		}
+	}
+	e.Tr.Event("done+fetch", si, res.Status, fstatus)
+	if (res.Status == "" || fstatus == "") && !s.C.Conn.ServerClosed() {
+		e.Fail("protocol", "DONE + FETCH: completions %q / %q", res.Status, fstatus)
 		return
 	}
 	g.after(si, "done", before, res)
